@@ -82,7 +82,7 @@ PROPS = {
     "C04": {
         "level": "other",
         "rules": [G.writers_conform, G.pairs_unify, G.sequences, G.char_codec, G.compressed_frame, P.output_methods,
-                  P.input_methods, B.varints, T.record_writer, T.step_codes, T.field_position, T.sequence_writer,
+                  P.input_methods, B.varints, T.record_writer, T.header_writer, T.step_codes, T.field_position, T.sequence_writer,
                   T.sequence_reader, T.constructors, T.dedup_strings, T.ref_protocol, D.validate],
         "thorough": [TH.feature_matrix_grammar],
         "explanation": "Absolute conformance of structure: the writer grammar of every built-in codec equals the FORMAT table "
@@ -115,7 +115,7 @@ PROPS = {
         "level": "other",
         "rules": [R.coordinates, R.pairing, R.chunks_skipped, G.pairs_unify, G.sequences, E.decode_errors, T.read_field,
                   T.header_reader, T.step_codes, T.field_position, T.sequence_reader, T.ref_protocol, T.dedup_strings,
-                  D.validate],
+                  D.validate, P.input_methods, S.statics_inventory, S.constructors_and_writers],
         "thorough": [TH.feature_matrix(G.pairs_unify, G.sequences, E.decode_errors, name="feature_matrix_framing")],
         "explanation": "Framing is honoured structurally: a chunk window bounds the reads made inside it (R3), each field read "
                        "lies inside the window of its own generation and the advanced cursor is written back (R1), chunk windows "
